@@ -3,7 +3,9 @@ module verifgen
 go 1.13
 
 require (
+	github.com/Factom-Asset-Tokens/base58 v0.0.0-20181227014902-61655c4dd885
 	github.com/Factom-Asset-Tokens/factom v0.0.0-20191114224337-71de98ff5b3e
+	github.com/ethereum/go-ethereum v1.9.9
 	github.com/mattn/go-sqlite3 v1.11.0
 	github.com/pegnet/pegnetd v0.0.0
 	github.com/sirupsen/logrus v1.4.2
